@@ -55,6 +55,10 @@ AddPrefix == /\ b.phase = "prefix" /\ Len(h) < MaxPrefix
                                          r == Eff(op, st)
                                      IN r.legal /\ st' = r.st /\ h' = Record(op, r)
              /\ UNCHANGED b
+\* a whole prefix at once: two overrides, each after simulated time, ending at an odd number of ticks
+PrefixWarm == /\ b.phase = "prefix" /\ h = <<>> /\ MaxPrefix >= 2
+              /\ h' = WarmH /\ st' = WarmH[4].st
+              /\ b' = [b EXCEPT !.phase = "steps"]
 EndPrefix == /\ b.phase = "prefix"
              /\ b' = [b EXCEPT !.phase = "steps"]
              /\ UNCHANGED <<st, h>>
@@ -92,7 +96,7 @@ Post == /\ b.phase = "post"
            IN st' = r.st /\ h' = Record(op, r)
         /\ b' = [b EXCEPT !.phase = "end"]
 
-PNext == AddPrefix \/ EndPrefix \/ EndPrefixRead \/ AddStep \/ EndSteps \/ AddPoint \/ Commit \/ Again \/ Post
+PNext == AddPrefix \/ PrefixWarm \/ EndPrefix \/ EndPrefixRead \/ AddStep \/ EndSteps \/ AddPoint \/ Commit \/ Again \/ Post
 
 PEmit == (EmitOn /\ b.phase = "end") => PrintT("@J@" \o ToJson(h) \o "@E@")
 
